@@ -29,5 +29,28 @@ PROPS['C17'] = dict(
              'float treated as mathematical real (DESIGN 3.1); induction principle of the lemma engine'],
     assumptions=['floating point idealised as reals; the bounded grid check is the only evidence about rounding',
                  'Python int is unbounded'])
+SPA = 'generator_spa:Generator_spa.'
+PROPS['C12'] = dict(
+    title='Second-side lists rank exactly the agents that find them acceptable',
+    functions=[GS + 'create_pref_lists_from_other_lists', SPA + 'create_student_lec_lists', GS + 'create_ties_indicators'],
+    lemmas=['C12/spa-compose', 'LISTSET/empty-append', 'LISTSET/permute', 'LISTSET/iterate'],
+    level_text='both inversion functions verified for all list shapes by loop invariants over the element-set view of lists (exactly-once = duplicate-free + membership iff); SPA composition lemma proves the lecturer statement; the list-set fact schemas are themselves proved from the definitions',
+    harness=True, bound='<= 5 agents per side, <= 6 projects, <= 4 lecturers; whole generator runs n <= 6',
+    trusted=['T10 random.shuffle permutes its argument in place; np.random.choice returns values of positive probability',
+             'T10 np.random.choice(replace=False) returns distinct elements (precondition first-side-lists-duplicate-free)',
+             'call sites in generate_instances (which list is passed where) are covered by C08 contracts / the bounded generator runs'],
+    assumptions=['list-set view: facts instantiated by the engine at append/empty/shuffle/iteration, each justified by a LISTSET lemma',
+                 'Python int is unbounded; list displays do not alias; the loop variable of `for x in lists: shuffle(x)` aliases the element (modelled)'])
+IOP = 'instance_options_parser:Instance_options_parser.'
+PROPS['C15'] = dict(
+    title='Generator accepts every documented argument set and cleanly rejects invalid ones',
+    functions=[(IOP + 'parse', {'argv_fixed': {'matchingproblem': mp}}) for mp in ('ha', 'sm', 'hr', 'spa')],
+    lemmas=[],
+    level_text='full-domain symbolic execution of Instance_options_parser.parse (helpers inlined, table loops unrolled exactly) per problem type, every other argument absent-or-any-value: returns normally iff Legal(args), otherwise SystemExit(2); every comparison with None is a safety obligation; complete for all integers / reals, no bound',
+    harness=True, bound='legal base vectors with n <= 6 and all single-fault perturbations; quick 3 bases per type, thorough 40',
+    trusted=['T9 argparse: parse_args yields typed values or the declared defaults (None / False) or exits with code 2; parser.error raises SystemExit(2); get_default returns the declared default',
+             'float arguments treated as reals'],
+    assumptions=['Legal(type, args) is transcribed from the README "require the following arguments" lists and the bound list in the property statement',
+                 'Generator.__init__ ordering (parse before any output) and generate_instances are checked by C08 contracts and by the bounded runs (nothing written on rejection)'])
 NOT_APPLICABLE = {}
 NOTES = 'see DESIGN.md; ./check Cxx --tier quick|thorough; exit 0 held / 1 VIOLATION / 2 undecided / 3 checker error'
